@@ -451,8 +451,8 @@ class Check:
 _OBSERVERS = {
     "C01": ["ObsRelayTrace"], "C02": ["ObsPoolTrace"], "C03": ["ObsFaultsTrace"],
     "C04": ["ObsPoolTrace", "ObsHealthRaceTrace"], "C05": ["ObsPoolTrace", "DistObs"], "C06": ["ObsPoolTrace", "DistObs"],
-    "C07": ["ObsBreakerTrace"], "C08": ["ObsBreakerTrace"], "C09": ["ObsLimiterTrace", "DistObs"], "C10": ["ObsAdminTrace"],
-    "C11": ["ObsPoolTrace", "ObsLinTrace"], "C12": ["RaceObs"], "C13": ["ObsPoolTrace", "ObsHealthRaceTrace"],
+    "C07": ["ObsBreakerTrace"], "C08": ["ObsBreakerTrace", "DistObs"], "C09": ["ObsLimiterTrace", "DistObs"], "C10": ["ObsAdminTrace"],
+    "C11": ["ObsPoolTrace", "ObsLinTrace"], "C12": ["RaceObs"], "C13": ["ObsPoolTrace", "ObsHealthRaceTrace", "DistObs"],
     "C14": ["ObsSizeLimitTrace"], "C15": ["ObsGzipTrace"], "C16": ["ObsIdTrace", "ObsIdWireTrace"], "C17": ["ObsChainTrace"],
     "C18": ["ObsConfigTrace"], "C19": ["ObsShutdownTrace"], "C20": ["ObsWsPoolTrace", "ObsTunnelTrace", "ObsLinPoolTrace"],
 }
